@@ -11,3 +11,5 @@ for p in ${@:-benign/*/patch_*.diff}; do
   git -C /repo checkout -- .
   echo "$line"
 done
+# the runs above rewrote evidence/*.json for mutated trees: restore the committed evidence of the unchanged tree
+git -C /verif checkout -- evidence
